@@ -718,8 +718,11 @@ class Executor:
 
     def merge(self, c, a: State, b: State, base_len):
         m = State()
-        for k in set(a.unbound) | set(b.unbound):
-            m.unbound[k] = z3.If(c, a.unbound.get(k, z3.BoolVal(False)), b.unbound.get(k, z3.BoolVal(False)))
+        one_sided = {k for k in set(a.vars) ^ set(b.vars) if "." not in k and (a.vars.get(k) or b.vars.get(k)).z is not None}
+        for k in set(a.unbound) | set(b.unbound) | one_sided:
+            ua = a.unbound.get(k, z3.BoolVal(k not in a.vars))
+            ub = b.unbound.get(k, z3.BoolVal(k not in b.vars))
+            m.unbound[k] = z3.simplify(z3.If(c, ua, ub))
         if a.pc[:base_len] != b.pc[:base_len] and any(not x.eq(y) for x, y in zip(a.pc[:base_len], b.pc[:base_len])):
             return None
         m.pc = list(a.pc[:base_len])
@@ -731,7 +734,11 @@ class Executor:
         for k in set(a.vars) | set(b.vars):
             va, vb = a.vars.get(k), b.vars.get(k)
             if va is None or vb is None:
-                continue  # defined on one side only: undefined after the join
+                # bound on one side only: after the join the local is *possibly unbound* (reading it in code needs the
+                # `unbound-local` obligation); clauses may still speak about it under the branch condition
+                if k in one_sided:
+                    m.vars[k] = va if va is not None else vb
+                continue
             if va.z is None or vb.z is None:
                 m.vars[k] = va
                 continue
